@@ -40,53 +40,24 @@ theorem bucketT_ext (a b : BucketT) (h1 : a.buckets.toList = b.buckets.toList) (
   simp only [BucketT.mk.injEq]
   exact ⟨Array.toList_inj.mp h1, Array.toList_inj.mp h2, h3, h4, h5⟩
 
-theorem breset_loop1_eq (n : Nat) : ∀ (i : Nat) (k : Int) (g : Gen.bucketHash), k = (i : Int) → i + n ≤ g.buckets.len →
-    bucketHash_reset_loop_1 n k g =
-      Res.ok { g with buckets := { g.buckets with arr := mapLoop (fun _ => zeroB) zeroB n i g.buckets.arr } } := by
-  induction n with
-  | zero => intro i k g _ _; rfl
-  | succ n ih =>
-    intro i k g hk hlen
-    simp only [bucketHash_reset_loop_1]
-    rw [gset_ok _ _ i hk (by omega)]
-    simp only [bind_ok]
-    rw [ih (i + 1) (k + 1) _ (by omega) (by show i + 1 + n ≤ g.buckets.len; omega)]
-    rfl
-
-theorem breset_loop2_eq (n : Nat) : ∀ (i : Nat) (k : Int) (g : Gen.bucketHash), k = (i : Int) → i + n ≤ g.indexes.len →
-    bucketHash_reset_loop_2 n k g =
-      Res.ok { g with indexes := { g.indexes with arr := mapLoop (fun _ => (0 : UInt8)) 0 n i g.indexes.arr } } := by
-  induction n with
-  | zero => intro i k g _ _; rfl
-  | succ n ih =>
-    intro i k g hk hlen
-    simp only [bucketHash_reset_loop_2]
-    rw [bset_ok _ _ i hk (by omega)]
-    simp only [bind_ok]
-    rw [ih (i + 1) (k + 1) _ (by omega) (by show i + 1 + n ≤ g.indexes.len; omega)]
-    rfl
+theorem ofBEntry_zero' : ofBEntry { pos := 0, val := 0 } = (0, 0) := rfl
 
 /-- K01 `bucketHash.reset` -/
 theorem gen_bucketHash_reset (g : Gen.bucketHash) (h : BucketWF g) :
     ∃ g', bucketHash_reset g = Res.ok g' ∧ ofBucket g' = (ofBucket g).clear ∧ BucketWF g' := by
   obtain ⟨hb, hi⟩ := h
   unfold bucketHash_reset
-  rw [breset_loop1_eq g.buckets.len 0 0 g rfl (by omega)]
-  simp only [bind_ok]
-  rw [breset_loop2_eq g.indexes.len 0 0 _ rfl (by show 0 + g.indexes.len ≤ g.indexes.len; omega)]
-  simp only [bind_ok]
+  (try simp only [gen_helper, bind_ok])
   refine ⟨_, rfl, ?_, ?_⟩
   · apply bucketT_ext
-    · simp only [ofBucket, BucketT.clear, GSlice.data, mapLoop_take _ _ _ _ hb, List.map_map,
-        Array.toList_replicate, List.size_toArray, List.length_map]
-      rw [show (ofBEntry ∘ fun _ => zeroB) = fun _ => ((0 : Nat), (0 : Nat)) from rfl, map_const_replicate]
-    · simp only [ofBucket, BucketT.clear, Slice.data, mapLoop_take _ _ _ _ hi, List.map_map,
-        Array.toList_replicate, List.size_toArray, List.length_map]
-      rw [show (UInt8.toNat ∘ fun _ => (0 : UInt8)) = fun _ => (0 : Nat) from rfl, map_const_replicate]
+    · simp only [ofBucket, BucketT.clear, gclear_data _ _ hb, List.map_replicate, ofBEntry_zero',
+        Array.toList_replicate, List.size_toArray, List.length_map, gdata_length hb]
+    · simp only [ofBucket, BucketT.clear, bclear_data _ hi, List.map_replicate, UInt8.toNat_zero,
+        Array.toList_replicate, List.size_toArray, List.length_map, data_length hi]
     · rfl
     · rfl
     · rfl
-  · exact ⟨by simpa [GWF, mapLoop_length] using hb, by simpa [SWF, mapLoop_length] using hi⟩
+  · exact ⟨gclear_wf _ _ hb, bclear_wf _ hi⟩
 
 end LZ.GenHash
 
